@@ -110,7 +110,16 @@ def c13_4(ctx):
         keyed = isinstance(it_, (ast.Dict, ast.DictComp, ast.Set, ast.SetComp)) or t.startswith(("set(", "dict(", "frozenset(")) or (
             isinstance(it_, ast.Call) and isinstance(it_.func, ast.Attribute) and it_.func.attr in ("items", "keys", "values") and (
                 isinstance(it_.func.value, (ast.Dict, ast.DictComp)) or norm(it_.func.value).startswith(("dict(", "{"))))
-        if t in per_input:
+        # ... and for every input: not only when the source transaction is met for the first time (a cache filled in the loop)
+        filled = {norm(x.target) for x in w.effects if x.kind == "setitem" and x.loops and x.loops[-1].node is lp.node and isinstance(x.target, ast.Name)}
+        filled |= {x.call.func.value.id for x in w.effects if x.kind == "call" and x.loops and x.loops[-1].node is lp.node and isinstance(x.call.func, ast.Attribute)
+                   and x.call.func.attr in ("add", "setdefault", "update") and isinstance(x.call.func.value, ast.Name)}
+        first_only = [o for o in (gi.f_opaques(e.reach) if e.reach not in (True, False) else []) if isinstance(o, str) and any(o.endswith(" in %s" % c) for c in filled)
+                      and sym.entails(e.reach, ("not", ("op", o)))]
+        if first_only:
+            ctx.bad("every-input-compared", ctx.where(f, e.node), "validate_unspents compares an input only when `%s` is false, and the loop itself makes it true: of several inputs spending from one source transaction only the first is compared"
+                    % first_only[0][:90], sample={"only_when_not": first_only[0][:120]})
+        elif t in per_input:
             ctx.ok("every-input-compared", sample={"loop": t})
         elif keyed and "previous_hash" in t:
             ctx.bad("every-input-compared", ctx.where(f, e.node), "validate_unspents compares inside a loop over `%s`, a collection keyed by the source transaction: of several inputs spending from one transaction only one is compared with its authenticated output"
